@@ -220,6 +220,7 @@ func init() {
 		}
 		c05Detours(c)
 		c05FailedReloads(c)
+		c05PatternComposites(c)
 		for ti, t := range targets {
 			al := c05Alphabet(t)
 			type node struct{ path []mOp }
@@ -360,6 +361,78 @@ func c05FailedReloads(c *Ctx) {
 			c.Direct(id, "after a reload that was rejected while the role links were rebuilt, the role graph answers differently from one rebuilt from GetGroupingPolicy", fmt.Sprintf("content=%v listed=%s live=%s rebuilt=%s", m.A.Content, m.listedKey(), got, fresh["g"]))
 		}
 	})
+}
+
+// the composite role APIs under domain patterns (implementation only): roles held through a rule
+// of the pattern domain "*" next to roles of the concrete domain; DeleteRolesForUser /
+// DeleteRoleForUser(InDomain) / DeleteUser remove listed rules only, and afterwards the role graph
+// answers like one rebuilt from GetGroupingPolicy with the same matching function.  (The same
+// (user, role) pair is never listed both under "*" and under a concrete domain: F05.)
+func c05PatternComposites(c *Ctx) {
+	names := []string{"alice", "bob", "admin", "auditor", "staff"}
+	doms := []string{"d1", "d2"}
+	base := [][]string{{"alice", "auditor", "*"}, {"alice", "admin", "d1"}, {"bob", "staff", "*"}, {"bob", "admin", "d2"}, {"alice", "staff", "d2"}}
+	build := func(rules [][]string) *casbin.Enforcer {
+		mm, _ := model.NewModelFromString(machDomain.Text)
+		e, _ := casbin.NewEnforcer(mm)
+		e.AddNamedDomainMatchingFunc("g", "keyMatch", util.KeyMatch)
+		for _, r := range rules {
+			_, _ = e.AddGroupingPolicy(toIface(r)...)
+		}
+		return e
+	}
+	links := func(e *casbin.Enforcer) string {
+		var parts []string
+		rm := e.GetRoleManager()
+		for _, d := range doms {
+			for _, u := range names {
+				for _, r := range names {
+					if hl, _ := rm.HasLink(u, r, d); hl && u != r {
+						parts = append(parts, u+">"+r+"@"+d)
+					}
+				}
+			}
+		}
+		return strings.Join(parts, " ")
+	}
+	calls := []struct {
+		name string
+		f    func(e *casbin.Enforcer)
+	}{
+		{"DeleteRolesForUser(alice,d1)", func(e *casbin.Enforcer) { _, _ = e.DeleteRolesForUser("alice", "d1") }},
+		{"DeleteRolesForUser(bob,d2)", func(e *casbin.Enforcer) { _, _ = e.DeleteRolesForUser("bob", "d2") }},
+		// DeleteRolesForUserInDomain is left out: it builds its batch from GetRoles, which under
+		// domain patterns also returns roles held through "*", and RemoveGroupingPolicies deletes
+		// the link of every rule in the batch, listed or not (F05 family, see DESIGN F05+)
+		{"DeleteRoleForUserInDomain(alice,admin,d1)", func(e *casbin.Enforcer) { _, _ = e.DeleteRoleForUserInDomain("alice", "admin", "d1") }},
+		{"DeleteRoleForUser(alice,staff,d2)", func(e *casbin.Enforcer) { _, _ = e.DeleteRoleForUser("alice", "staff", "d2") }},
+		{"DeleteRole(admin)", func(e *casbin.Enforcer) { _, _ = e.DeleteRole("admin") }},
+		{"DeleteUser(bob)", func(e *casbin.Enforcer) { _, _ = e.DeleteUser("bob") }},
+		{"DeleteAllUsersByDomain(d2)", func(e *casbin.Enforcer) { _, _ = e.DeleteAllUsersByDomain("d2") }},
+		{"DeleteDomains(d1)", func(e *casbin.Enforcer) { _, _ = e.DeleteDomains("d1") }},
+	}
+	for _, cl := range calls {
+		e := build(base)
+		before, _ := e.GetGroupingPolicy()
+		cl.f(e)
+		listed, _ := e.GetGroupingPolicy()
+		// only listed rules may disappear (set inclusion)
+		for _, r := range listed {
+			found := false
+			for _, b := range before {
+				if sameRule(r, b) {
+					found = true
+				}
+			}
+			if !found {
+				c.Direct("c05.patcomp."+cl.name, "a rule appeared", fmt.Sprintf("%v", r))
+			}
+		}
+		if got, want := links(e), links(build(listed)); got != want {
+			c.Direct("c05.patcomp."+cl.name, "domain patterns: after "+cl.name+" the role graph answers differently from one rebuilt from GetGroupingPolicy", fmt.Sprintf("listed=%v live=[%s] rebuilt=[%s]", listed, got, want))
+		}
+		c.Count("pattern-composite")
+	}
 }
 
 func c05Probes(c *Ctx) {
